@@ -450,6 +450,12 @@ func runBuf(c *ctx) {
 			cp := cpNext
 			cpNext++
 			nf := 1 + r.intn(2)
+			// every fourth session: one FAR shared by a PDR without a QoS flow and a PDR with one, so that a
+			// release re-injects packets of both forms back to back
+			mixed := r.chance(25)
+			if mixed {
+				nf = 1
+			}
 			var farT, qerT, pdrT []string
 			var ies []*ie.IE
 			s := &bufSess{cp: cp}
@@ -468,12 +474,21 @@ func runBuf(c *ctx) {
 				s.fars = append(s.fars, uint32(f))
 			}
 			nq := r.intn(3)
+			if mixed && nq == 0 {
+				nq = 1
+			}
 			for q := 1; q <= nq; q++ {
 				qfi := uint8([]int{0, 9, 63, 1, 0}[r.intn(5)])
+				if mixed && q == 1 {
+					qfi = uint8([]int{9, 63, 1, 33}[r.intn(4)])
+				}
 				ies = append(ies, ie.NewCreateQER(ie.NewQERID(uint32(q)), ie.NewGateStatus(0, 0), ie.NewQFI(qfi)))
 				qerT = append(qerT, fmt.Sprintf("%d:%d", q, qfi))
 			}
 			np := 1 + r.intn(3)
+			if mixed && np < 2 {
+				np = 2
+			}
 			for p := 1; p <= np; p++ {
 				far := uint32(1 + r.intn(nf))
 				var qs []uint32
@@ -483,6 +498,12 @@ func runBuf(c *ctx) {
 						qs = append(qs, uint32(q))
 						qss = append(qss, fmt.Sprint(q))
 					}
+				}
+				if mixed && p == 1 {
+					qs, qss = nil, nil
+				}
+				if mixed && p == 2 {
+					qs, qss = []uint32{1}, []string{"1"}
 				}
 				ies = append(ies, pdrIE(uint16(p), far, qs))
 				qt := "-"
